@@ -18,7 +18,10 @@ SoundObserved(e) ==
   IN /\ e.bytes_ok                                            \* every visited copy is byte-for-byte its object
      /\ <<1, 0>> \in C                                        \* the root starts the output
      /\ \A c \in C : c[2] + NodeSize(e, c[1]) <= e.total      \* inside the output
-     /\ \A c, dd \in C : c # dd => (c[2] + NodeSize(e, c[1]) <= dd[2] \/ dd[2] + NodeSize(e, dd[1]) <= c[2])  \* disjoint
+     \* distinct placements do not overlap (identical objects may be shared: same position, same size)
+     /\ \A c, dd \in C : (c # dd /\ NodeSize(e, c[1]) > 0 /\ NodeSize(e, dd[1]) > 0) =>
+          IF c[2] = dd[2] THEN NodeSize(e, c[1]) = NodeSize(e, dd[1])
+          ELSE (c[2] + NodeSize(e, c[1]) <= dd[2] \/ dd[2] + NodeSize(e, dd[1]) <= c[2])
      /\ {c[1] : c \in C} = reach                              \* every reachable object is present
      \* every link of every copy was decoded, fits its width and lands on a copy of its target
      /\ \A c \in C : \A i \in DOMAIN e.links[c[1]] :
